@@ -123,6 +123,36 @@ class ListT(TupleT):
         return list(super().make(ctx, name))
 
 
+class FnT(TypeGen):
+    """An arbitrary callable: returns an opaque value or raises one of the listed exception kinds.
+    raises: list of (exception class, {field: TypeGen}) pairs."""
+
+    def __init__(self, raises=(), result=None):
+        self.raises, self.result = list(raises), result
+
+    def make(self, ctx, name):
+        from .values import OpaqueFn
+
+        def factory(cls, fields):
+            def f(ctx_, nm):
+                c = resolve(cls) if isinstance(cls, str) else cls
+                return Obj(c, dict({k: t.make(ctx_, '%s.%s' % (nm, k)) for k, t in fields.items()}, args=()))
+            return f
+        res = (lambda ctx_, nm: self.result.make(ctx_, nm)) if self.result is not None else None
+        return OpaqueFn(name, [factory(c, f) for c, f in self.raises], res)
+
+
+class OpaqueT(TypeGen):
+    def __init__(self, not_instance_of=()):
+        self.not_instance_of = tuple(not_instance_of)
+
+    def make(self, ctx, name):
+        from .values import OpaqueVal
+        v = OpaqueVal(name)
+        v.not_instance_of = tuple(resolve(c) if isinstance(c, str) else c for c in self.not_instance_of)
+        return v
+
+
 class ObjT(TypeGen):
     """Instance of a real class with the given symbolic fields."""
 
@@ -182,7 +212,7 @@ def resolve(target):
 
 class Contract:
     def __init__(self, target, params, prop, returns=None, frame=(), name=None, float_mode='real',
-                 hooks=None, max_unroll=64, doc='', use=None, pure_result=False):
+                 hooks=None, max_unroll=64, doc='', use=None, pure_result=False, cells=None):
         self.target, self.params, self.prop = target, params, prop
         self.returns, self.frame = returns, tuple(frame)
         self.name = name or (target if isinstance(target, str) else getattr(target, '__name__', 'fn'))
@@ -195,6 +225,7 @@ class Contract:
         self.reach = []           # reachability covers: (name, fn(args...)) must be satisfiable
         self._fn = None
         self.allowed_exceptions = ()
+        self.cells = cells or {}  # free variables of the target closure replaced by symbolic values
         self.regions = {}         # known-finding id -> region predicate over the inputs
         self.bounded = None
 
@@ -412,6 +443,13 @@ def verify_contract(con, registry, label=None):
         args = {}
         for p, t in con.params.items():
             args[p] = t.make(ctx, p)
+        clo = closure
+        if con.cells:
+            import copy as _copy
+            cellvals = {k: t.make(ctx, k) for k, t in con.cells.items()}
+            args.update(cellvals)
+            clo = _copy.copy(closure)
+            clo.cells = [cellvals] + list(closure.cells)
         ctx.inputs = args
         rec.args = args
         if con.requires_fn:
@@ -420,8 +458,8 @@ def verify_contract(con, registry, label=None):
         rec.args_in = snapshot(args)
         old = rec.args_in
         try:
-            pos, kws = call_args(closure, args)
-            result = interp.call_closure(closure, pos, kws, force_body=True)
+            pos, kws = call_args(clo, args)
+            result = interp.call_closure(clo, pos, kws, force_body=True)
             rec.outcome = ('return', result)
         except PyRaise as pr:
             rec.outcome = ('raise', pr.exc)
@@ -543,7 +581,51 @@ def concretize(v, env, funs=REAL_FUNS):
         return [concretize(v.wrap(tm.mk_select(v.arr, tm.const(i))), env, funs) for i in range(n)]
     if isinstance(v, Obj):
         return make_instance(v.cls, {k: concretize(x, env, funs) for k, x in v.fields.items()})
+    tn = type(v).__name__
+    if tn == 'OpaqueVal':
+        return env.setdefault('$opaque', {}).setdefault(v.name, NativeOpaque(v.name))
+    if tn == 'OpaqueFn':
+        store = env.setdefault('$opaque', {})
+        if v.name not in store:
+            outcomes = [(k, concretize(o, env, funs)) for _, _, (k, o) in v.calls]
+            store[v.name] = NativeFn(v.name, outcomes)
+        return store[v.name]
+    if tn == 'ArrVal':
+        import numpy as np
+        return np.asarray([[concretize(x, env, funs) for x in r] for r in v.rows], object)
     return v
+
+
+class NativeOpaque:
+    def __init__(self, name):
+        self.name = name
+
+    def __repr__(self):
+        return '<opaque %s>' % self.name
+
+    def __deepcopy__(self, memo):
+        return self
+
+
+class NativeFn:
+    """Concrete stand-in of an opaque callable: replays the outcomes chosen on the path."""
+
+    def __init__(self, name, outcomes):
+        self.name, self.outcomes, self.calls = name, list(outcomes), 0
+        self.__name__ = name
+
+    def __deepcopy__(self, memo):
+        return NativeFn(self.name, self.outcomes)
+
+    def __call__(self, *a, **k):
+        i = self.calls
+        self.calls += 1
+        if i >= len(self.outcomes):
+            return NativeOpaque('%s.extra%d' % (self.name, i))
+        kind, o = self.outcomes[i]
+        if kind == 'raise':
+            raise o
+        return o
 
 
 def make_instance(cls, fields):
@@ -620,10 +702,36 @@ def py_equal(a, b):
         return all(py_equal(getattr(a, k, None), getattr(b, k, None)) for k in type(a).__slots__)
     if isinstance(a, BaseException) and type(a) is type(b):
         return True
+    if isinstance(a, NativeOpaque) or isinstance(b, NativeOpaque):
+        return a is b
+    if isinstance(a, NativeFn) and isinstance(b, NativeFn):
+        return a.name == b.name
+    try:
+        import numpy as np
+        if isinstance(a, np.ndarray) and isinstance(b, np.ndarray):
+            return a.shape == b.shape and all(py_equal(x, y) for x, y in zip(a.ravel().tolist(), b.ravel().tolist()))
+    except Exception:
+        pass
     try:
         return type(a) is type(b) and bool(a == b) or (a is b)
     except Exception:
         return a is b
+
+
+class _Sig:
+    pass
+
+
+def _closure_sig(fn):
+    import ast as _ast
+    c = _Sig()
+    c.node = closure_of_code(fn)
+    return c
+
+
+def closure_of_code(fn):
+    from .interp import func_ast
+    return func_ast(fn)
 
 
 def call_args(closure, args):
@@ -647,10 +755,24 @@ def call_args(closure, args):
     return pos, kws
 
 
-def run_native(fn, args):
+def with_cells(fn, cellvals):
+    """A copy of python function `fn` whose free variables named in cellvals are rebound."""
+    import types as _types
+    if not cellvals:
+        return fn
+    cells = []
+    for name, cell in zip(fn.__code__.co_freevars, fn.__closure__ or ()):
+        cells.append(_types.CellType(cellvals[name]) if name in cellvals else cell)
+    g = _types.FunctionType(fn.__code__, fn.__globals__, fn.__name__, fn.__defaults__, tuple(cells))
+    g.__kwdefaults__ = fn.__kwdefaults__
+    return g
+
+
+def run_native(fn, args, cells=()):
     args = copy.deepcopy(args)
     try:
-        pos, kws = call_args(closure_of(fn), args)
+        fn = with_cells(fn, {k: args[k] for k in cells})
+        pos, kws = call_args(closure_of(fn) if not cells else _closure_sig(fn), args)
         r = fn(*pos, **kws)
         if inspect.isgenerator(r):
             r = list(r)
@@ -664,6 +786,8 @@ def concolic_check(con, rec):
     Returns ('ok'|'skipped'|'mismatch', detail)."""
     if rec.outcome is None or rec.outcome[0] in ('unsupported', 'cut'):
         return 'skipped', 'outcome %s' % (rec.outcome and rec.outcome[0],)
+    if getattr(con, 'no_native', False):
+        return 'skipped', 'ghost state (clock): no concrete replay'
     env, r = model_env(rec.pc + rec.axioms, extra_vars=list(input_vars(rec.args_in).values()))
     if env is None:
         return 'skipped', 'no model (%s)' % r['verdict']
@@ -680,7 +804,7 @@ def concolic_check(con, rec):
         cargs = concretize(rec.args_in, env)
     except tm.EvalError as ex:
         return 'skipped', 'args not evaluable: %s' % ex
-    outcome, after = run_native(con.fn, cargs)
+    outcome, after = run_native(con.fn, cargs, tuple(con.cells))
     kind = rec.outcome[0]
     if kind == 'raise':
         if outcome[0] != 'raise' or not isinstance(outcome[1], rec.outcome[1].cls):
@@ -716,7 +840,7 @@ def native_check(con, cargs, clause_name=None):
     if not pre:
         return res
     old = copy.deepcopy(cargs)
-    outcome, after = run_native(con.fn, cargs)
+    outcome, after = run_native(con.fn, cargs, tuple(con.cells))
     res['outcome'] = outcome
     res['after'] = after
 
